@@ -166,8 +166,9 @@ def GenParamsValid (g : GenCfg) : Prop :=
   g.ent.validate = true ∧ g.wrk.validate = true ∧ g.bcn.validate = true ∧ streamParamsValid g.strFee = true
 
 /-- **stored parameters of all four modules are valid in every state of every run** -/
-theorem paramsValid_reachable (g : GenCfg) (hg : GenParamsValid g) (s : State) (h : Reachable g s) : ParamsValid s := by
-  have hf := (reachable_fine g s h).1
+theorem paramsValid_reachable (g : GenCfg) (hg : GenParamsValid g) (hgg : GenGrantsOK g) (s : State) (h : Reachable g s) :
+    ParamsValid s := by
+  have hf := (reachable_fine g hgg s h).1
   exact fine_inv g (fun _ => True) ParamsValid ⟨hg.1, hg.2.1, hg.2.2.1, hg.2.2.2⟩
     (fun s s' _ hp hs => paramsValid_step s s' hp hs) s hf
 
